@@ -57,6 +57,14 @@ StrReport(n, o) == TotalReport(n, o, Features(o.cs))
 PyReport(n, o) ==
   /\ TotalReport(n, o, <<>>)
   /\ PyPredict(o.h) \in {"?", o.o} \/ ~C20_Total(o.o) \/ ~C20_NothingForeign(o.ev) \/ P("T-FAIL", [tid |-> n, op |-> "python-corner", j |-> 0])
+\* ---- parsing history: per call form, warm = cold; the constructor forms are total; transcription: a second
+\* parse of the very same string by the same registry is served from the memo (the identical object)
+HistReport(n, o) ==
+  /\ \A f \in DOMAIN o.cold :
+       /\ C20_HistoryFree(o.cold[f], o.warm[f]) \/ P("P-FAIL", [tid |-> n, clause |-> "history", j |-> f, idx |-> 0, outcome |-> o.warm[f].o,
+              what |-> IF o.warm[f].o # o.cold[f].o THEN "outcome" ELSE IF o.warm[f].dim # o.cold[f].dim THEN "dimension" ELSE IF o.warm[f].off # o.cold[f].off THEN "offset" ELSE "scale"])
+       /\ (f = 3 \/ (C20_Total(o.cold[f].o) /\ C20_Total(o.warm[f].o))) \/ P("P-FAIL", [tid |-> n, clause |-> "total", j |-> f, idx |-> 0, outcome |-> o.cold[f].o, what |-> <<>>])
+  /\ (o.cold[1].o # "Ok" \/ o.memo) \/ P("T-FAIL", [tid |-> n, op |-> "string-memo", j |-> 0])
 \* ---- persistence
 PersistReport(n, o) ==
   /\ C20_Persist(o.rk, o.rt, o.w, o.r) \/ P("P-FAIL", [tid |-> n, clause |-> "persist", j |-> 0, idx |-> 0, outcome |-> o.r.o,
@@ -65,7 +73,7 @@ PersistReport(n, o) ==
        \/ ~C20_Persist(o.rk, o.rt, o.w, o.r) \/ P("T-FAIL", [tid |-> n, op |-> "persist-" \o o.rt, j |-> 0])
 Report(n) == LET o == Obs[n] IN
   CASE o.k = "ast" -> AstReport(n, o) [] o.k = "tok" -> TokReport(n, o) [] o.k = "py" -> PyReport(n, o)
-    [] o.k = "persist" -> PersistReport(n, o) [] OTHER -> StrReport(n, o)
+    [] o.k = "persist" -> PersistReport(n, o) [] o.k = "hist" -> HistReport(n, o) [] OTHER -> StrReport(n, o)
 Init == i = 0
 Next == i < Len(Obs) /\ i' = i + 1 /\ Report(i + 1)
 =============================================================================
